@@ -5,10 +5,8 @@
 set -u
 id="$1"; x="$2"; suite="${3:-}"
 export GOFLAGS=-mod=mod GOPROXY=off GOSUMDB=off GOTOOLCHAIN=local
-src="${SEEDED_SRC:-/tmp/seeded}/$id/$x"
+src="/verif/seeded/$id/$x"
 patch="$src/patch.diff"
-[ -f "/tmp/rebased/$id/$x/patch.diff" ] && patch="/tmp/rebased/$id/$x/patch.diff"
-[ -f "/verif/seeded/$id/$x/patch.diff" ] && [ "${SEEDED_SRC:-}" = "" ] && [ ! -f "/tmp/rebased/$id/$x/patch.diff" ] && [ ! -f "$patch" ] && patch="/verif/seeded/$id/$x/patch.diff"
 demo=$(ls "$src"/demo_test.go.txt "$src"/demo_main.go.txt 2>/dev/null | head -1)
 wt="/tmp/confirm/$id$x"
 rm -rf "$wt"; git -C /repo worktree prune
